@@ -24,7 +24,7 @@ from .sampling_method import SamplingMethod
 from casadi import sumsqr, horzcat, vertcat, linspace, substitute, MX, evalf,\
                    vcat, collocation_points, collocation_interpolators, hcat,\
                    repmat, DM, sum2, mtimes, vvcat, depends_on, Function
-from .casadi_helpers import get_ranges_dict, HashOrderedDict, HashDict, is_numeric
+from .casadi_helpers import get_ranges_dict, HashOrderedDict, HashDict, is_numeric, is_same_expr
 import casadi as ca
 from itertools import repeat
 try:
@@ -316,7 +316,7 @@ class DirectCollocation(SamplingMethod):
                 if value.is_column() and var.is_scalar(): value = value.T
                 for k in list(range(self.N))+[-1]:
                     target = self.eval_at_control(stage, var, k)
-                    if k==-1 and ca.is_equal(target, self.eval_at_control(stage, var, self.N-1)):
+                    if k==-1 and is_same_expr(target, self.eval_at_control(stage, var, self.N-1)):
                         continue # quantity of the last control interval: keep the value of its start time, not that of tf
                     value_k = value
                     if target.numel()*(self.N)==value.numel() or target.numel()*(self.N+1)==value.numel():
